@@ -268,7 +268,9 @@ def psi_to_dec_and_ra(
     azi = np.arctan2(y, x)
 
     dec = np.pi/2 - zen
-    ra = np.pi - azi
+    # azi lies in [-pi, pi], hence pi - azi in [0, 2*pi]; map 2*pi to 0 to stay
+    # within [0, 2*pi).
+    ra = np.mod(np.pi - azi, 2*np.pi)
 
     return (dec, ra)
 
